@@ -206,13 +206,13 @@ func c16p1(seed uint64, n, m, q int) [][]int {
 }
 
 // p2: appendAdditionalCandidates (lottery.go:88-99,112): Perm(candidates), again whenever the queue ran empty at
-// the start of an author's turn; at most 12 pops per author, so 2 + 12m/n permutations always suffice
+// the start of an author's turn; at most 12 pops per author and n per permutation, so 14 permutations always suffice
 func c16p2(seed uint64, n, m int) [][]int {
 	if n == 0 || m <= 7 {
 		return nil
 	}
 	r := rand.New(rand.NewSource(c16randSeed(seed)*77 + 55))
-	cnt := 2 + (12*m+n-1)/n
+	const cnt = 14 // proved sufficient: Props/C16.lean lottery_ok_of_valid_streams (Proofs: appendLoop_ne_bad)
 	out := make([][]int, cnt)
 	for i := range out {
 		out[i] = r.Perm(n)
@@ -283,7 +283,10 @@ func c16protect(f func()) (panicked bool, what string) {
 }
 
 // c16run executes one case on the real code and evaluates the oracle.
-func c16run(cs c16case) *c16out {
+func c16run(cs c16case) *c16out { return c16runK(cs, true) }
+
+// c16runK: withKeys=false skips the (expensive) real encryption / decryption sampling
+func c16runK(cs c16case, withKeys bool) *c16out {
 	fx := c16getFixture()
 	o := &c16out{}
 	shards := c16shardsOf(cs)
@@ -641,6 +644,9 @@ func c16run(cs c16case) *c16out {
 		}
 
 		// ---- key packages for sampled authors: real encryption, extraction, decryption
+		if !withKeys {
+			continue
+		}
 		var authors []int
 		for a := 0; a < n; a++ {
 			if in.fl[a] > 0 && !rcpErr[a] && len(rcp[a]) <= 48 {
@@ -688,7 +694,10 @@ func c16run(cs c16case) *c16out {
 					who = append(who, c)
 				}
 			} else {
-				who = append(who, rcp[a][krng.Intn(len(rcp[a]))], rcp[a][krng.Intn(len(rcp[a]))], a)
+				if len(rcp[a]) > 0 {
+					who = append(who, rcp[a][krng.Intn(len(rcp[a]))], rcp[a][krng.Intn(len(rcp[a]))])
+				}
+				who = append(who, a)
 				for i := 0; i < 3; i++ {
 					who = append(who, krng.Intn(n))
 				}
@@ -783,8 +792,10 @@ func c16hasSig(o *c16out, sig string) bool {
 }
 
 func c16shrink(cs c16case, sig string) c16case {
-	fails := func(c c16case) bool { return c16hasSig(c16run(c), sig) }
-	budget := 400
+	keySig := map[string]bool{"C16:recipient-cannot-obtain-key": true, "C16:non-recipient-obtains-key": true, "C16:wrong-package-index": true,
+		"C16:extraction-differs": true, "C16:wrong-public-flip-key": true, "C16:panic": true}[sig]
+	fails := func(c c16case) bool { return c16hasSig(c16runK(c, keySig), sig) }
+	budget := 300
 	for changed := true; changed && budget > 0; {
 		changed = false
 		// drop halves, then single identities
@@ -1056,7 +1067,7 @@ func init() {
 		} else if c.Tier == "quick" {
 			c16exhaustive(4, 2, []int{1, 2, 8}, []uint64{uint64(c.Seed)}, emit)
 		}
-		n := c.Scale(1500, 60000)
+		n := c.Scale(1500, 40000)
 		for i := 0; i < n; i++ {
 			emit(c16gen(c))
 		}
